@@ -128,6 +128,45 @@ func newProdAnchors(p *core.Prog) *prodAnchors {
 			}
 		})
 	}
+	// semantic resolution (preferred): the integer field from which the schema id stored into a new
+	// stream producer derives — whichever struct it lives in
+	if a.sp != nil {
+		for _, fn := range p.FuncsIn(func(pp string) bool { return pp == pkgArrowRecord }) {
+			core.EachInstr(fn, func(i ssa.Instruction) {
+				al, ok := i.(*ssa.Alloc)
+				if !ok || !al.Heap {
+					return
+				}
+				if n, _ := al.Type().(*types.Pointer).Elem().(*types.Named); n != a.sp {
+					return
+				}
+				for _, r := range core.Referrers(al) {
+					fa, ok := r.(*ssa.FieldAddr)
+					if !ok {
+						continue
+					}
+					if b, ok := core.FieldVar(fa).Type().Underlying().(*types.Basic); !ok || b.Kind() != types.String {
+						continue
+					}
+					for _, r2 := range core.Referrers(fa) {
+						st, ok := r2.(*ssa.Store)
+						if !ok || st.Addr != ssa.Value(fa) {
+							continue
+						}
+						core.BackSlice(st.Val, func(v ssa.Value) bool {
+							if f2 := core.LoadedField(v); f2 != nil {
+								if bits, _ := intBits(core.FieldVar(f2).Type()); bits > 0 {
+									a.nextF = core.FieldVar(f2)
+									return false
+								}
+							}
+							return true
+						})
+					}
+				}
+			})
+		}
+	}
 	for k, ok := range map[string]bool{"stream-producer map": a.mapF != nil, "batch id field": a.batchF != nil, "next schema id field": a.nextF != nil, "per-message closure": a.produceIn != nil} {
 		if !ok {
 			a.errs = append(a.errs, k+" not resolved")
@@ -557,18 +596,21 @@ func c12_5(c *core.Ctx, p *core.Prog) {
 	// single writer of the counter
 	var writers []string
 	var inc *ssa.Store
-	for _, f := range arrowRecordFuncs(p) {
+	for _, f := range rootFuncs(c, p) {
 		core.EachInstr(f, func(i ssa.Instruction) {
 			if s, ok := storesTo(i, a.nextF); ok {
 				if _, isLit := s.Addr.(*ssa.FieldAddr).X.(*ssa.Alloc); isLit {
 					return
 				}
 				writers = append(writers, p.Pos(s.Pos()))
-				inc = s
+				if core.FnPkgPath(f) == pkgArrowRecord || inc == nil {
+					inc = s
+				}
 			}
 		})
 	}
-	c.Check(len(writers) == 1 && inc != nil, "counter|single-writer", p.Pos(a.produce.Pos()), core.FuncName(a.produce), "the schema-id counter has one writer", fmt.Sprintf("the schema-id counter is written at %v: ids can be reused", writers))
+	sort.Strings(writers)
+	c.Check(len(writers) == 1 && inc != nil, "counter|single-writer", p.Pos(a.produce.Pos()), core.FuncName(a.produce), "the schema-id counter has one writer", fmt.Sprintf("the counter the schema ids are taken from (%s) is written at %v: a second writer (e.g. a statistics reset) makes the numbering start again, so a later sub-stream gets the id of a live or retired one", a.nextF.Name(), writers))
 	// the construction of a new stream producer (in the per-message function or a helper)
 	var al *ssa.Alloc
 	for _, f := range arrowRecordFuncs(p) {
